@@ -435,9 +435,10 @@ pub fn c09_strategy() -> BoxedStrategy<ConcCase> {
                 (select(vec![512usize, 700]), Just(400u64), select(vec![16usize, 128, 4096]), any::<bool>())
                     .prop_map(|(memtable, file, block, reuse)| Cfg { memtable, file, block, reuse }),
                 prop::collection::vec(prop::collection::vec(op.clone(), 20..70), nt),
+                prop_oneof![1 => Just(0u32), 1 => any::<u32>()],
             )
         })
-        .prop_map(|(cfg, programs)| ConcCase { cfg, nkeys: 6, programs, directives: vec![], wal_fault: None, preload: 0, sync_mask: 0 })
+        .prop_map(|(cfg, programs, sync_mask)| ConcCase { cfg, nkeys: 6, programs, directives: vec![], wal_fault: None, preload: 0, sync_mask })
         .boxed()
 }
 
